@@ -255,3 +255,150 @@ class WriteUint64(Contract):
             ("length-announced", L(o1) - n0 == SP.number_len(o1, n0)),
             ("decodes-to-value", SP.number_value(o1, n0) == value),
         ]
+
+
+# ---------------------------------------------------------------------------------------- BooleanList
+from pyvc.contract import ForAll  # noqa: E402
+
+
+def _mask_of(i):
+    """value of `mask` at the head of iteration i of read_boolean's loop"""
+    r = i % 8
+    m = 0
+    for j in range(1, 8):
+        m = ite(r == j, 0x80 >> j, m)
+    return m
+
+
+@contract
+class ReadBoolean(Contract):
+    """bit k of the result is bit k of the BitField (MSB first), for vectors of every length;
+    the all-defined shortcut yields count times True"""
+
+    target = AI + "read_boolean"
+    props = ("C17", "C06", "C05")
+    sample_bounds = {"count": (0, 300)}
+
+    def setup(self, c):
+        return {"file": c.instream("file"), "count": c.int("count"), "checkall": c.bool("checkall")}
+
+    def requires(self, c, file, count, checkall):
+        return [("count-nonneg", count >= 0)]
+
+    @staticmethod
+    def _shortcut(snap, file, checkall):
+        d, p = snap.data(file), snap.pos(file)
+        return And(checkall, Or(L(d) - p <= 0, nth(d, p) != 0))
+
+    @staticmethod
+    def _q0(snap, file, checkall):
+        return snap.pos(file) + ite(checkall, 1, 0)
+
+    def raises(self):
+        def when(c, file, count, checkall):
+            o = c.old
+            return And(Not(ReadBoolean._shortcut(o, file, checkall)), ReadBoolean._q0(o, file, checkall) + ceil8(count) > L(o.data(file)))
+
+        return [RaiseSpec("TypeError", when=when, iff=True)]
+
+    def modifies(self, c, file, count, checkall):
+        return [(file, "pos")]
+
+    def fresh_result(self, c, file, count, checkall):
+        return c.bool_list("bools")
+
+    def ensures(self, c, old, result, file, count, checkall):
+        d, p = old.data(file), old.pos(file)
+        sc = self._shortcut(old, file, checkall)
+        q0 = self._q0(old, file, checkall)
+        r = c.view(result)
+        return [
+            ("length", L(r) == count),
+            ("shortcut-all-true", ForAll(lambda k: Implies(And(sc, k >= 0, k < count), nth(r, k)), over=r)),
+            ("shortcut-consumes-flag", Implies(sc, c.pos(file) == ite(L(d) - p <= 0, p, p + 1))),
+            ("bit-k", ForAll(lambda k: Implies(And(Not(sc), k >= 0, k < count), nth(r, k) == SP.bit(d, q0, k)), over=r)),
+            ("consumed", Implies(Not(sc), c.pos(file) == q0 + ceil8(count))),
+            ("frame-data", eq(c.data(file), d)),
+        ]
+
+    def loops(self):
+        def inv(c, Lp):
+            b = c.bound
+            file, count, checkall = b["file"], b["count"], b["checkall"]
+            o = c.old
+            d = o.data(file)
+            q0 = self._q0(o, file, checkall)
+            i = Lp.i
+            res = Lp.local("result")
+            bb, mask = Lp.local("b"), Lp.local("mask")
+            return [
+                ("pos", c.pos(file) == q0 + ceil8(i)),
+                ("mask", mask == _mask_of(i)),
+                ("byte", And(bb >= 0, bb < 256, Implies(i % 8 != 0, bb == nth(d, q0 + i // 8)))),
+                ("length", L(res) == i),
+                ("prefix", ForAll(lambda k: Implies(And(k >= 0, k < i), nth(res, k) == SP.bit(d, q0, k)), over=res)),
+                ("frame-data", eq(c.data(file), d)),
+            ]
+
+        return {"archiveinfo:read_boolean#loop0": LoopSpec(
+                "for-i",
+                inv,
+                target="i in range(count)",
+                cells={"result": "bool"},
+                # prove the step separately for each bit position inside the byte (8 cases)
+                case_split=[("@index_mod", 8), ("mask", lambda c, Lp: Lp.local("mask"))],
+            )
+        }
+
+
+@contract
+class WriteBoolean(Contract):
+    target = AI + "write_boolean"
+    props = ("C17", "C07")
+
+    def setup(self, c):
+        return {"file": c.outstream("file"), "booleans": c.bool_list("booleans"), "all_defined": c.bool("all_defined")}
+
+    def modifies(self, c, file, booleans, all_defined):
+        return [(file, "out")]
+
+    def ensures(self, c, old, result, file, booleans, all_defined):
+        from pyvc.values import all_true_of
+
+        bs = c.view(booleans)
+        n = L(bs)
+        o0, o1 = old.out(file), c.out(file)
+        n0 = L(o0)
+        alltrue = all_true_of(c, bs)
+        short = And(all_defined, alltrue)
+        q0 = n0 + ite(all_defined, 1, 0)
+        return [
+            ("appends", eq(slice_(o1, 0, n0), o0)),
+            ("shortcut", Implies(short, And(L(o1) == n0 + 1, nth(o1, n0) == 1))),
+            ("flag-zero", Implies(And(all_defined, Not(alltrue)), nth(o1, n0) == 0)),
+            ("length", Implies(Not(short), L(o1) == q0 + ceil8(n))),
+            ("bit-k", ForAll(lambda k: Implies(And(Not(short), k >= 0, k < n), SP.bit(o1, q0, k) == nth(bs, k)), over=bs, mod=8)),
+            ("padding-zero", ForAll(lambda k: Implies(And(Not(short), k >= n, k < 8 * ceil8(n)), Not(SP.bit(o1, q0, k))), over=bs, trigger=False, mod=8)),
+        ]
+
+    def loops(self):
+        def inv(c, Lp):
+            bs = c.view(c.bound["booleans"])
+            n = L(bs)
+            o = Lp.local("o")
+            i = Lp.i
+            return [
+                ("length", L(o) == ceil8(n)),
+                ("bits", ForAll(lambda k: Implies(And(k >= 0, k < 8 * ceil8(n)), SP.bit(o, 0, k) == And(k < i, nth(bs, k))), over=o, trigger=False, mod=8)),
+                ("frame-out", eq(c.out(c.bound["file"]), Lp.ghost["out_at_loop"])),
+            ]
+
+        def init(c, Lp):
+            Lp.ghost["out_at_loop"] = c.out(c.bound["file"])
+            return []
+
+        return {
+            "archiveinfo:write_boolean#loop0": LoopSpec(
+                "for-i-b", inv, target="(i, b) in enumerate(booleans)", unfold_init=init, case_split=[("@index_mod", 8)]
+            )
+        }
